@@ -97,6 +97,9 @@ CASES = {
     "example-empty": (lambda: example_request("empty"), ["dense"], "plain"),
     "spaced-lists": (lambda: dict(example_request("primordial"), cooling=["CIC_HI", "RC_HII"]), ["dense"], "spaced"),
     "extra-species+modifiers": (lambda: dict(example_request("minimal"), allowed=["H", "C2", "C", "CH", "H2", "C2H"], extra=["H2", "C2H"], rate_modifier={4894: "1.5e-10*zeta"}, ode_modifier={"H": {"factors": ["2.0"], "reactants": [["C", "CH"]]}}), ["dense"], "plain"),
+    # modifier terms that name a species twice (quadratic terms) and several terms per species; duplicated list options
+    "repeated-dependencies": (lambda: dict(example_request("minimal"), rate_modifier={4894: "1.5e-10*zeta"},
+                                           ode_modifier={"C2": {"factors": ["zeta", "-0.5*zeta"], "reactants": [["C", "C"], ["C2", "C2", "H"]]}, "C": {"factors": ["-2.0*zeta"], "reactants": [["C", "C"]]}}), ["dense"], "plain"),
     "ice-binding-yield": (lambda: base_request(files=["ice.naunet"], formats=["naunet"], elements=["H", "C", "O"], pseudo_elements=["CR"], binding={"#CO": 1234.5, "#H": 500.0}, yields={"#CO": 0.002}, grain_model="hh93", srcdir=None, _ice=True), ["dense"], "plain"),
     "ice-binding-yield-spaced": (lambda: base_request(files=["ice.naunet"], formats=["naunet"], elements=["H", "C", "O"], pseudo_elements=["CR"], binding={"#CO": 1234.5, "#H": 500.0}, yields={"#CO": 0.002}, grain_model="hh93", srcdir=None, _ice=True), ["dense"], "spaced"),
     "replacement+yield-only": (lambda: base_request(files=["up.ucl"], formats=["uclchem"], elements=["E", "H", "HE", "C", "O", "MG", "SI"], pseudo_elements=["CR", "CRP", "PHOTON", "CRPHOT"],
